@@ -39,12 +39,17 @@ class OpD:
 
 
 class SliceD:
-    def __init__(self, kind, ident):
+    def __init__(self, kind, ident, overlap=False):
         self.kind, self.ident = kind, ident  # kind: 'slice' | 'array'
+        self.overlap = overlap  # an index array that agrees with the other index array in some position although the two are different
 
 
 class Undecidable(Exception):
     pass
+
+
+class RaisesAtRuntime(Undecidable):
+    """the rule raises for this configuration (no annotation is reported at all)"""
 
 
 class TypeV:
@@ -113,7 +118,7 @@ class Interp:
 
     def truth(self, v):
         if isinstance(v, tuple) and v and v[0] == "eqarr":
-            raise Undecidable("truth value of an element-wise array comparison")
+            raise RaisesAtRuntime("truth value of an element-wise array comparison")
         if isinstance(v, (bool, int)):
             return bool(v)
         if isinstance(v, (frozenset, set, list, tuple)):
@@ -238,11 +243,12 @@ class Interp:
                     ok = same if isinstance(op, ast.Is) else not same
                 elif isinstance(op, (ast.Eq, ast.NotEq)):
                     if isinstance(left, SliceD) and isinstance(r, SliceD):
-                        same = ("eqarr", left.ident == r.ident) if left.kind == "array" or r.kind == "array" else (left.ident == r.ident)
+                        same = ("eqarr", left.ident == r.ident, left.ident == r.ident or (left.overlap and r.overlap and left.kind == r.kind == "array")) \
+                            if left.kind == "array" or r.kind == "array" else (left.ident == r.ident)
                     else:
                         same = left == r
                     if isinstance(same, tuple):
-                        return same if isinstance(op, ast.Eq) else ("eqarr", not same[1])
+                        return same if isinstance(op, ast.Eq) else ("eqarr", not same[2], not same[1])  # all(a != b) = not any(a == b)
                     ok = same if isinstance(op, ast.Eq) else not same
                 elif isinstance(op, ast.In):
                     ok = left in r
@@ -324,9 +330,9 @@ class Interp:
             if isinstance(recv, OpD) and e.func.attr == "isa":
                 a = self.ev(e.args[0], env, fi)
                 return recv.isa(self._annot_name(a))
-            if isinstance(recv, tuple) and recv and recv[0] == "eqarr" and e.func.attr == "all":
-                return recv[1]
-            if isinstance(recv, bool) and e.func.attr == "all":
+            if isinstance(recv, tuple) and recv and recv[0] == "eqarr" and e.func.attr in ("all", "any") and not e.args:
+                return recv[1] if e.func.attr == "all" else recv[2]
+            if isinstance(recv, bool) and e.func.attr in ("all", "any") and not e.args:
                 return recv
         f = self.ev(e.func, env, fi)
         args = [self.ev(a, env, fi) for a in e.args]
